@@ -132,6 +132,20 @@ template<typename MM_> static std::string multi_structure(const MM_& mm)
 	return "M" + std::to_string(gens) + ":" + std::to_string(keys) + "." + std::to_string(vl);
 }
 
+// stateful traits (hash seed / comparison direction): the state must travel with every assignment, incl. `= {...}`
+struct SeedHash
+{
+	int seed; explicit SeedHash(int s = 0) : seed(s) {}
+	size_t operator()(const E& e) const { return size_t((uint64_t(e.Value()) * 0x9E3779B97F4A7C15ull) ^ (uint64_t(seed) * 0xC2B2AE3D27D4EB4Full)) >> (seed % 7); }
+};
+struct PlainEq { bool operator()(const E& a, const E& b) const { return a.Value() == b.Value(); } };
+struct DirLess
+{
+	int id; explicit DirLess(int i = 1) : id(i) {}
+	bool desc() const { return id % 2 == 0; }
+	bool operator()(const E& a, const E& b) const { return desc() ? b.Value() < a.Value() : a.Value() < b.Value(); }
+};
+
 template<typename C> struct SeqAd      // Array / SegmentedArray / stdish::vector
 {
 	static const bool crew = false; static const bool multi = true;
@@ -365,18 +379,6 @@ struct AdTable
 // SetCrew<..., false> (traits and manager as private bases); the traits are STATEFUL (hash seed / comparison direction), so
 // a container that holds another container's body under its own traits cannot find its keys / iterates in the wrong order.
 // For these kinds the "id" of a container is the state of its traits.
-struct SeedHash
-{
-	int seed; explicit SeedHash(int s = 0) : seed(s) {}
-	size_t operator()(const E& e) const { return size_t((uint64_t(e.Value()) * 0x9E3779B97F4A7C15ull) ^ (uint64_t(seed) * 0xC2B2AE3D27D4EB4Full)) >> (seed % 7); }
-};
-struct PlainEq { bool operator()(const E& a, const E& b) const { return a.Value() == b.Value(); } };
-struct DirLess
-{
-	int id; explicit DirLess(int i = 1) : id(i) {}
-	bool desc() const { return id % 2 == 0; }
-	bool operator()(const E& a, const E& b) const { return desc() ? b.Value() < a.Value() : a.Value() < b.Value(); }
-};
 struct InlHashSettings : public momo::HashSetSettings { static const bool checkVersion = false; };
 struct InlTreeSettings : public momo::TreeSetSettings { static const bool checkVersion = false; };
 typedef momo::MemManagerDefault DMM;
@@ -570,6 +572,43 @@ struct AdUMap : StdMapAd<SUMap, false>
 	static int id(const SUMap& c) { return c.mHashMap.mHashSet.mCrew.mData == nullptr ? -1 : al_id(c.get_allocator()); }
 	static void unusual(SUMap& c, char kind, int n);
 };
+
+// stdish wrappers with STATEFUL functors (seed / direction = the id the container was made with): after copy / move assignment,
+// swap and initializer-list assignment the functor state must be the one the std rules give (seeded/C06-c: map::operator=({...})
+// rebuilt the tree with a default-constructed comparator)
+typedef momo::stdish::map<E, E, DirLess, Al<PairE>> SMapDir;
+typedef momo::stdish::set<E, DirLess, Al<E>> SSetDir;
+typedef momo::stdish::unordered_set<E, SeedHash, PlainEq, Al<E>> SUSetSeed;
+struct AdMapDir : StdMapAd<SMapDir, false>
+{
+	static const bool has_traits_id = true;
+	static SMapDir make(int id) { return SMapDir(DirLess(id), mk_al<PairE>(id)); }
+	static int id(const SMapDir& c) { return c.mTreeMap.mTreeSet.mCrew.mData == nullptr ? -1 : al_id(c.get_allocator()); }
+	static int traits_id(const SMapDir& c) { return c.key_comp().id; }
+	static bool order_ok(const SMapDir& c) { DirLess l = c.key_comp(); const E* p = nullptr; for (auto r : c) { if (p && !l(*p, r.first)) return false; p = &r.first; } return true; }
+	static std::string structure(const SMapDir& c) { return tree_structure(c.mTreeMap.mTreeSet); }
+	static void unusual(SMapDir&, char, int) { g_unusual = true; }
+};
+struct AdSetDir : StdSetAd<SSetDir, false>
+{
+	static const bool has_traits_id = true;
+	static SSetDir make(int id) { return SSetDir(DirLess(id), mk_al<E>(id)); }
+	static int id(const SSetDir& c) { return c.mTreeSet.mCrew.mData == nullptr ? -1 : al_id(c.get_allocator()); }
+	static int traits_id(const SSetDir& c) { return c.key_comp().id; }
+	static bool order_ok(const SSetDir& c) { DirLess l = c.key_comp(); const E* p = nullptr; for (const E& e : c) { if (p && !l(*p, e)) return false; p = &e; } return true; }
+	static std::string structure(const SSetDir& c) { return tree_structure(c.mTreeSet); }
+	static void unusual(SSetDir&, char, int) { g_unusual = true; }
+};
+struct AdUSetSeed : StdSetAd<SUSetSeed, false>
+{
+	static const bool has_traits_id = true;
+	static SUSetSeed make(int id) { return SUSetSeed(0, SeedHash(id), PlainEq(), mk_al<E>(id)); }
+	static int id(const SUSetSeed& c) { return c.mHashSet.mCrew.mData == nullptr ? -1 : al_id(c.get_allocator()); }
+	static int traits_id(const SUSetSeed& c) { return c.hash_function().seed; }
+	static bool order_ok(const SUSetSeed&) { return true; }
+	static std::string structure(const SUSetSeed& c) { return hash_structure(c.mHashSet); }
+	static void unusual(SUSetSeed&, char, int) {}
+};
 struct AdUMMap : StdMapAd<SUMMap, true>
 {
 	static SUMMap make(int id) { return SUMMap(0, Hash(), Eq(), mk_al<PairE>(id)); }
@@ -618,6 +657,8 @@ void AdUMap::unusual(SUMap& c, char kind, int n) { if (kind == 'g' || kind == 'h
 // ------------------------------------------------------------------------------------------- generic driver
 template<typename Ad, typename = void> struct HasInline : std::false_type {};
 template<typename Ad> struct HasInline<Ad, std::void_t<decltype(Ad::inline_crew)>> : std::true_type {};
+template<typename Ad, typename = void> struct HasTraitsId : std::false_type {};
+template<typename Ad> struct HasTraitsId<Ad, std::void_t<decltype(Ad::has_traits_id)>> : std::true_type {};
 template<typename Ad, typename = void> struct HasHandles : std::false_type {};
 template<typename Ad> struct HasHandles<Ad, std::void_t<decltype(&Ad::handles)>> : std::true_type {};
 template<typename Ad, typename = void> struct HasMerge : std::false_type {};
@@ -712,6 +753,16 @@ template<typename Ad> static void run_case(const Case& cs, FILE* out)
 			// the container must behave per the traits it holds NOW: find every key it contains (hash functor / comparator state)
 			if (tId != -1 && !self && !none) for (size_t i = 0; i < tc.size(); i += (tc.size() > 40 ? 7 : 1)) if (!Ad::find(T, tc[i])) { fail("target-cannot-find-its-own-key"); break; }
 			if (sId != -1) for (size_t i = 0; i < sc.size(); i += (sc.size() > 40 ? 7 : 1)) if (!Ad::find(S, sc[i])) { fail("source-cannot-find-its-own-key"); break; }
+		}
+		if constexpr (HasTraitsId<Ad>::value)
+		{
+			// the functors are part of the container's value: copy / move construction and assignment give the target the source's
+			// functor state, swap exchanges them -- independently of the allocator propagation traits
+			int wantT = (iscopy || ismove) ? cs.sid : (op == "swap" ? cs.sid : cs.tid);
+			if (!self && !none && tId != -1 && Ad::traits_id(T) != wantT) fail("target-functor-state-is-" + std::to_string(Ad::traits_id(T)) + "-expected-" + std::to_string(wantT));
+			if (sId != -1 && Ad::traits_id(S) != (op == "swap" ? cs.tid : cs.sid)) fail("source-functor-state-changed");
+			if (!self && !none && tId != -1 && !Ad::order_ok(T)) fail("target-traversal-order-is-not-its-comparators");
+			if (sId != -1 && !Ad::order_ok(S)) fail("source-traversal-order-is-not-its-comparators");
 		}
 		if constexpr (HasInline<Ad>::value)
 		{
@@ -812,7 +863,20 @@ template<typename Ad> static void run_case(const Case& cs, FILE* out)
 		else if (po == "fmove") { useF = true; F = std::move(S); }                       // S as the SOURCE of a move assignment
 		else if (po == "ccopy") { useF = true; Xp.reset(new C(S)); Fobs = Xp.get(); if (Ad::contents(*Fobs) != sBefore) fail("copy-of-source-differs"); }
 		else if (po == "find") { useF = true; bool fnd = Ad::find(S, 1003); bool exp = std::find(sBefore.begin(), sBefore.end(), 1003) != sBefore.end(); if (fnd != exp) fail("find-wrong"); if (fnd) Ad::ins(F, 1); }
-		else if (po == "ilist") { if constexpr (Ad::is_stdish && Ad::crew) Ad::ilist(S); }
+		else if (po == "ilist")
+		{
+			if constexpr (Ad::is_stdish && Ad::crew)
+			{
+				int tb = -1; if constexpr (HasTraitsId<Ad>::value) tb = Ad::traits_id(S);
+				Ad::ilist(S);
+				if constexpr (HasTraitsId<Ad>::value)
+				{
+					// operator=(initializer_list) replaces the ELEMENTS; comparator / hasher (and allocator) stay (seeded/C06-c)
+					if (Ad::traits_id(S) != tb) fail("initializer-list-assignment-changed-the-functor-state-from-" + std::to_string(tb) + "-to-" + std::to_string(Ad::traits_id(S)));
+					if (!Ad::order_ok(S)) fail("after-initializer-list-assignment-the-order-is-not-the-comparators");
+				}
+			}
+		}
 		uint64_t dc1 = w.n_copy - c1;
 		int s2 = Ad::id(S), fId = useF ? Ad::id(*Fobs) : -2;
 		Vals s2c = Ad::contents(S), fc = useF ? Ad::contents(*Fobs) : Vals();
@@ -879,6 +943,9 @@ static bool dispatch(const Case& cs, FILE* out)
 	else if (cs.kind == "mmap") run_case<AdMMap>(cs, out);
 	else if (cs.kind == "umap") run_case<AdUMap>(cs, out);
 	else if (cs.kind == "ummap") run_case<AdUMMap>(cs, out);
+	else if (cs.kind == "mapdir") run_case<AdMapDir>(cs, out);
+	else if (cs.kind == "setdir") run_case<AdSetDir>(cs, out);
+	else if (cs.kind == "usetseed") run_case<AdUSetSeed>(cs, out);
 #endif
 	else return false;
 #endif
